@@ -4,7 +4,7 @@
 //verif:dump common
 //verif:dump sema
 //verif:dump fixedpoint
-//verif:assume CCF round trip of scalar values and small containers: for every value of the kind (full width; Int/UInt |x| < 2^128; strings/identifiers <= 3 bytes of valid UTF-8; arrays/dictionaries of <= 2 UInt8/UInt16 entries; optionals of a UInt8) the real ccf.Encode followed by the real ccf.Decode (incl. github.com/fxamacker/cbor's stream encoder/decoder run from source) yields a value of the same kind and content, never crashes, and a dictionary's encoding does not depend on the order of its entries; other composites than a two-field struct, type values, capabilities are outside
+//verif:assume CCF round trip of scalar values and small containers: for every value of the kind (full width; Int/UInt |x| < 2^128; strings/identifiers <= 3 bytes of valid UTF-8; arrays/dictionaries of <= 2 UInt8/UInt16 entries; optionals of a UInt8) the real ccf.Encode followed by the real ccf.Decode (incl. github.com/fxamacker/cbor's stream encoder/decoder run from source) yields a value of the same kind and content, never crashes, and a dictionary's encoding does not depend on the order of its entries; contracts, attachments, nested composites, composite type values, capabilities are outside
 package PKGNAME
 
 import (
@@ -680,4 +680,81 @@ func ZZ_C42_RoundTrip_Struct() {
 		b2v, isB2 := u2.SearchFieldByName("bb").(cadence.UInt16)
 		zzAssert("same-fields", isA2 && isB2 && uint8(a2) == x && uint16(b2v) == y)
 	}
+}
+
+// Type values: every scalar simple type and derived types over it (encode_type.go /
+// decode_type.go): the decoded type is equal to the original.
+//
+//verif:harness property=C42 mode=bv unwind=80 steps=40000000
+func ZZ_C42_RoundTrip_TypeValue() {
+	prims := [12]cadence.Type{cadence.IntType, cadence.UInt8Type, cadence.Word64Type, cadence.Fix64Type, cadence.UFix128Type, cadence.StringType, cadence.BoolType, cadence.AddressType, cadence.PathType, cadence.AnyStructType, cadence.VoidType, cadence.Int256Type}
+	p := prims[zzChoice(12)]
+	size := zzNondetUint32()
+	var t cadence.Type
+	switch zzChoice(8) {
+	case 0:
+		t = p
+	case 1:
+		t = cadence.NewOptionalType(p)
+	case 2:
+		t = cadence.NewVariableSizedArrayType(p)
+	case 3:
+		t = cadence.NewConstantSizedArrayType(uint(size), p)
+	case 4:
+		t = cadence.NewDictionaryType(cadence.StringType, p)
+	case 5:
+		t = cadence.NewReferenceType(cadence.UnauthorizedAccess, p)
+	case 6:
+		t = cadence.NewCapabilityType(p)
+	default:
+		t = cadence.NewOptionalType(cadence.NewVariableSizedArrayType(p))
+	}
+	r, ok := zzRoundTrip(cadence.NewTypeValue(t))
+	if !ok {
+		return
+	}
+	u, same := r.(cadence.TypeValue)
+	zzAssert("same-kind", same)
+	if same {
+		zzAssert("equal-type", u.StaticType != nil && u.StaticType.Equal(t) && t.Equal(u.StaticType))
+		zzAssert("same-type-id", u.StaticType != nil && u.StaticType.ID() == t.ID())
+	}
+}
+
+// Composites other than structs: a resource, an event and an enum with symbolic field values.
+//
+//verif:harness property=C42 mode=bv unwind=80 steps=40000000
+func ZZ_C42_RoundTrip_Composites() {
+	x, y := zzNondetUint8(), zzNondetInt64()
+	loc := common.StringLocation("x")
+	fields := []cadence.Field{cadence.NewField("a", cadence.UInt8Type), cadence.NewField("bb", cadence.Int64Type)}
+	vals := []cadence.Value{cadence.UInt8(x), cadence.Int64(y)}
+	var v cadence.Value
+	k := zzChoice(3)
+	switch k {
+	case 0:
+		v = cadence.NewResource(vals).WithType(cadence.NewResourceType(loc, "R", fields, nil))
+	case 1:
+		v = cadence.NewEvent(vals).WithType(cadence.NewEventType(loc, "E", fields, nil))
+	default:
+		v = cadence.NewEnum([]cadence.Value{cadence.UInt8(x)}).WithType(cadence.NewEnumType(loc, "N", cadence.UInt8Type, []cadence.Field{cadence.NewField("rawValue", cadence.UInt8Type)}, nil))
+	}
+	r, ok := zzRoundTrip(v)
+	if !ok {
+		return
+	}
+	c, same := r.(cadence.Composite)
+	zzAssert("same-kind", same)
+	if !same {
+		return
+	}
+	zzAssert("same-type-id", r.Type() != nil && r.Type().ID() == v.Type().ID())
+	if k == 2 {
+		raw, isU8 := cadence.SearchFieldByName(c, "rawValue").(cadence.UInt8)
+		zzAssert("same-fields", isU8 && uint8(raw) == x)
+		return
+	}
+	a, isA := cadence.SearchFieldByName(c, "a").(cadence.UInt8)
+	b, isB := cadence.SearchFieldByName(c, "bb").(cadence.Int64)
+	zzAssert("same-fields", isA && isB && uint8(a) == x && int64(b) == y)
 }
